@@ -244,11 +244,12 @@ fn child(op: usize, nested: bool, quick_stride: u64, seed: u64, out: i32) -> i32
                 }
             }
             let fresh_sig = if op == 0 { fresh.pop().unwrap() } else { 0 };
-            // During a first registration, at the points where the library's handler already is the disposition, the
+            // During a first registration, at the points where the library's handler already is the disposition (HL_W_LOCKED is
+            // not among them: its two arrivals are the registry lock and the fallback lock, both before sigaction()), the
             // delivery is one of the very signal being registered (it finds no slot yet and must fall through harmlessly).
             let after_takeover = op == 0
                 && (matches!(*s, site::REG_AFTER_SIGACTION | site::REG_BEFORE_PUBLISH | site::REG_DONE)
-                    || (occ == 2 && matches!(*s, site::HL_W_LOCKED | site::HL_W_ALLOC | site::HL_W_SWAPPED | site::HL_B_FIRST | site::HL_B_FLIP | site::HL_B_DONE | site::HL_W_FREE | site::HL_W_FREED)));
+                    || (occ == 2 && matches!(*s, site::HL_W_ALLOC | site::HL_W_SWAPPED | site::HL_B_FIRST | site::HL_B_FLIP | site::HL_B_DONE | site::HL_W_FREE | site::HL_W_FREED)));
             let nested_sig = if after_takeover { fresh_sig } else { sig_list[(trials as usize) % sig_list.len()].0 };
             if nested {
                 director::set_rule(*s, RuleSpec { mode: mode::RAISE, class_mask: class::MUTATOR, ctx: ctx::OUTSIDE, nth: occ, arg: nested_sig as usize, ..Default::default() });
